@@ -72,7 +72,7 @@ func C10(c *Case) *Result {
 	}
 
 	// differential: reference Writer -> (upgrade) -> current Reader, against the reference Reader
-	o := GenOpts{SkipOpt: true, MaxJobs: 8, MaxBlock: 64 * 1024, Headerless: true, MixedCase: true}
+	o := GenOpts{SkipOpt: true, BigParam: true, LongChains: true, MaxJobs: 8, MaxBlock: 64 * 1024, Headerless: true, MixedCase: true}
 	o.Cheap = t.Intn(3) == 0
 	cfg := GenConfig(t, o)
 	maxBlocks := 4
@@ -116,7 +116,9 @@ func C10(c *Case) *Result {
 		res.Detail = "reference encoder fails on this pair: " + err.Error()
 		return res
 	}
-	refOut, err := RefDecompress(cfg, stream, 1)
+	// the reference decoder runs with the same job count as the current one: whether a stream
+	// decodes for every job count is C05's question, not a question of format stability
+	refOut, err := RefDecompress(cfg, stream, cfg.DecJobs)
 	if err != nil {
 		res.Verdict = "skip"
 		res.Detail = "reference decoder fails on this pair: " + err.Error()
